@@ -19,9 +19,9 @@ RLIMIT_RETRY = 80    # second attempt for a failed baseline obligation
 # property -> units (order = layering, bottom first)
 PROPERTY_UNITS = {
     "C06": ["bdd_ops", "dnf", "proper_subtype", "semtype_ops"],
-    "C04": ["bdd_ops", "dnf", "proper_subtype", "semtype_ops", "to_schema", "list_shape", "mapping_dnf", "access"],
+    "C04": ["bdd_ops", "dnf", "proper_subtype", "semtype_ops", "to_schema", "list_shape", "mapping_dnf", "access", "list_access"],
     "C05": ["semtype_ops", "list_shape", "mapping_dnf"],
-    "C07": ["dnf", "to_schema"],
+    "C07": ["dnf", "to_schema", "list_access"],
 }
 # obligation kind -> which property "owns" it when no explicit tag is given
 SEMANTIC = ("C06", "C05", "C07")
@@ -467,7 +467,7 @@ BOUNDED = {
                  what="keyof (not under contract): keyof A, keyof (A & B), keyof (A | B) for object atoms whose declared keys are the non-empty subsets of {a, b, c}, 147 questions, against the declared keys / their union / their intersection"),
             dict(family="listidx", obligation="access/bounded-standin/listidx.list_indexed_access",
                  known_cases="contracts/known_listidx_cases.txt",
-                 what="list_indexed_access (its termination and panic-freedom are proved in unit U9, its RESULT is not under contract): T[i] and T[i | j] for tuple types with a prefix up to length 3 over {string, number, boolean} and an optional rest, i, j in 0..=4, 1800 questions, against the item types at the indices"),
+                 what="list_indexed_access end to end through the public SemTypeContext::indexed_access (the per-atom member type is proved in unit U10, termination and panic-freedom of the walk over the diagram in U9, the walk's RESULT is not under contract): T[i], T[i | j], T[number except i] and T[number except i | j] for tuple types with a prefix up to length 3 over {string, number, boolean} and an optional rest, i, j in 0..=4, 3600 questions, against the item types at the selected indices"),
             dict(family="schema2", obligation="to_schema/bounded-standin/schema2.convert_to_schema",
                  known_cases="contracts/known_schema2_cases.txt",
                  what="the ASSUMED recursive entry point convert_to_schema and everything around the functions under contract (semtype_to_runtypes, the memo, to_sem_type reading the result back): every `X op Y` (union, intersection, difference) over 21 small source types (literal sets allowed/excluded over numbers and strings, basic tags, four object atoms, unknown, two differences), 1323 round trips; literal values compared by an independent membership function, object parts by the engine's is_same_type; then the frontend's next step remove_nots_of_intersections_and_empty_of_union is compared with an executable reading of its own comment (empty clauses dropped, Not<> members of the others dropped; emptiness decided by the engine), and its result must contain no Not<> and accept at least the values of the computed type")],
